@@ -767,6 +767,10 @@ fn child_main(a: &[String]) -> ! {
     vh::quiet_panics();
     let (h, p) = (a[0].as_str(), a[1].as_str());
     let seed: u64 = a[2].parse().unwrap_or_else(|_| std::process::exit(3));
+    if std::env::var("VERIF_TRACE").as_deref() == Ok("1") {
+        // a developer replaying a seed with logging switched on: a TRACE-level subscriber whose output is discarded
+        let _ = tracing_subscriber::fmt().with_max_level(tracing::Level::TRACE).with_writer(std::io::sink).try_init();
+    }
     let r1 = run_caught(h, p, seed);
     emit("R1", &r1);
     let r2 = run_caught(h, p, seed);
@@ -821,13 +825,15 @@ const OFFSETS: [&str; 2] = ["000000", "259200"]; // 0 and +3 days, equal length 
 /// (elapsed' = 40 * elapsed), so a harness whose trace depends on how much real time passed differs between them
 const SCALES: [&str; 2] = ["001", "040"];
 /// what else differs between the two clock environments (see run_child)
-const ENV_VARS: [(&str, [&str; 2]); 6] = [
+const ENV_VARS: [(&str, [&str; 2]); 7] = [
     ("RUST_LOG", ["error", "trace"]),
     ("RUST_BACKTRACE", ["0", "1"]),
     ("RAYON_NUM_THREADS", ["2", "7"]),
     ("TOKIO_WORKER_THREADS", ["2", "7"]),
     ("TZ", ["UTC+0", "UTC-9"]),
     ("HOME", ["/root", "/tmp/"]),
+    // "1": the child installs a TRACE-level tracing subscriber (output discarded) before it runs the harness
+    ("VERIF_TRACE", ["0", "1"]),
 ];
 const ENV_CPUS: [&str; 2] = ["0-15", "3-05"];
 const ENV_DIRS: [&str; 2] = ["/", "/tmp"];
@@ -1058,7 +1064,7 @@ fn compare(outs: &[(Env, ChildOut)]) -> Vec<Finding> {
             for k in 0..KEYS.len() {
                 if let (Some((ea, ca)), Some((eb, cb))) = (find(k, 0, false), find(k, 1, false)) {
                     if get(&ca.r1, f) != get(&cb.r1, f) {
-                        per_dim.entry("clock").or_default().push((f.clone(), ea.clone(), eb.clone(), 1));
+                        per_dim.entry("clock+env").or_default().push((f.clone(), ea.clone(), eb.clone(), 1));
                         break;
                     }
                 }
@@ -1329,7 +1335,7 @@ fn main() {
     rep.finish(
         coverage,
         vec![
-            "E is owned through /verif/selfcomp/shim.so (verified at the start of every run, see coverage.shim_verification): getrandom/SYS_getrandom//dev/urandom answered from VERIF_RANDOM_KEY, realtime clocks shifted by VERIF_CLOCK_OFFSET and, in the shifted environments, every wall/monotonic clock sped up 40x by VERIF_CLOCK_SCALE (elapsed-time dependence), ASLR off; the shifted environments also get different RUST_LOG / RUST_BACKTRACE / RAYON_NUM_THREADS / TOKIO_WORKER_THREADS / TZ / HOME values, another working directory and a 3-CPU affinity mask instead of 16 CPUs. The hash-key dimension is 4 chosen keys, not all iteration orders a map can take; seeds >= S are outside the bound".into(),
+            "E is owned through /verif/selfcomp/shim.so (verified at the start of every run, see coverage.shim_verification): getrandom/SYS_getrandom//dev/urandom answered from VERIF_RANDOM_KEY, realtime clocks shifted by VERIF_CLOCK_OFFSET and, in the shifted environments, every wall/monotonic clock sped up 40x by VERIF_CLOCK_SCALE (elapsed-time dependence), ASLR off; the shifted environments also get different RUST_LOG / RUST_BACKTRACE / RAYON_NUM_THREADS / TOKIO_WORKER_THREADS / TZ / HOME values, another working directory, a 3-CPU affinity mask instead of 16 CPUs, and run with a TRACE-level tracing subscriber installed (output discarded). The hash-key dimension is 4 chosen keys, not all iteration orders a map can take; seeds >= S are outside the bound".into(),
             "ahash (runtime-rng) mixes into every RandomState, besides the 64 getrandom bytes (owned), a counter advanced by the address of a heap box and started at the address of a static: with ASLR off and an empty environment these addresses are the same in all children (verified), so they are fixed, not enumerated; the same-process second run does see advanced ahash counters and std RandomState keys (k0+1 per map). Orders of ahash maps are therefore a function of (key, binary layout): reproducible for a given build of this binary, possibly different after a rebuild; orders of std maps depend on the key only".into(),
             "monotonic clocks are not shifted (std::time::Instant exposes differences only; shifting breaks absolute-deadline futex waits); the rate of time is not varied, so a decision on elapsed real time (none found in the harness paths: WriteBuffer/StreamingPersistence::should_flush is never called by the DST harnesses) would not be exercised".into(),
             "the async harnesses (streaming, compaction) run on a current-thread tokio runtime with the clock paused (their store latency is a real tokio::time::sleep of up to 100 ms per call; paused time auto-advances); thread scheduling is therefore not a dimension. Fewer operations than the presets' max_operations (300 / 200)".into(),
